@@ -201,6 +201,15 @@ STUBS = {
     'ctor:std::unique_lock<std::mutex>/1': 'vs_ulock_ctor', 'ctor:std::lock_guard<std::mutex>/1': 'vs_ulock_ctor',
 }
 GUARDED_STUBS = {'struct vs_ulock': 'vs_ulock_dtor'}
+ASSUMED = [
+    'Core::construct<T>(args) is NOT lowered (placement new into aligned storage through reinterpret_cast): assumed to raise Async::Error for a void core and BadType on a type mismatch, and otherwise to store the value, set `allocated` and make the core Fulfilled',
+    'CoreT<T>::value() is NOT lowered (reinterpret_cast of the storage): assumed to raise Async::Error unless the core is fulfilled, else to hand out the stored value',
+    'std::shared_ptr<X> modelled as X* (ownership, lifetime and use-after-free of cores / continuations are not decided)',
+    'std::atomic<State> as a plain State, std::mutex / unique_lock / lock_guard as a held flag: single-threaded semantics only (the cross-thread half is property C12, not claimed)',
+    'the vector of attached continuations: n <= 2^20 requests visited in index order; Request::resolve / reject of an attached continuation and the user callbacks are counting stubs that may raise',
+    'preconditions standing for caller history: an input of whenAll / whenAny settles at most once (Continuable guards, proved separately); the range form sized the result vector to the number of inputs and gave continuation i the index i',
+    'std::make_exception_ptr yields some exception object (an identifier); Rejection::operator()(std::exception_ptr) therefore stores an exception_ptr that WRAPS the exception_ptr it was given (as written in the code: whenAll / whenAny reject with a std::exception_ptr object as the exception, not with the original exception) -- seen, not part of the claim',
+]
 THROWING = ['vs_req_resolve', 'vs_req_reject', 'vs_core_construct', 'vs_do_resolve', 'vs_do_reject', 'vs_user_resolve', 'vs_core_value']
 ALWAYS_REPLACE = []
 OPAQUE = []
@@ -227,6 +236,7 @@ for _f in ('Resolver_call_vector', 'Continuation_AddOne_finishResolve', 'Continu
     DEVIRT[(_f, 'doReject')] = 'vs_do_reject'
     DEVIRT[(_f, 'isFulfilled')] = 'Promise_int_isFulfilled'
     DEVIRT[(_f, 'isRejected')] = 'Promise_int_isRejected'
+    DEVIRT[(_f, 'isPending')] = 'Promise_int_isPending'
 
 ALLD = 'struct Pistache_Async_Impl_All_Data *'
 ANYD = 'struct Pistache_Async_Impl_Any_Data *'
@@ -386,6 +396,7 @@ PROM = 'struct Pistache_Async_Promise_int_'
 FUNCTIONS += [
     {'q': 'Pistache::Async::Promise::isFulfilled', 'class_targ': 'int', 'c': 'Promise_int_isFulfilled'},
     {'q': 'Pistache::Async::Promise::isRejected', 'class_targ': 'int', 'c': 'Promise_int_isRejected'},
+    {'q': 'Pistache::Async::Promise::isPending', 'class_targ': 'int', 'c': 'Promise_int_isPending'},
     {'q': 'Pistache::Async::Promise::Promise', 'sig_exact': 'void ()', 'class_targ': 'int', 'c': 'Promise_int_ctor'},
     {'q': 'Pistache::Async::Resolver::Resolver', 'sig': 'const std::shared_ptr<Private::Core> &', 'c': 'Resolver_ctor'},
     {'q': 'Pistache::Async::Rejection::Rejection', 'sig': 'const std::shared_ptr<Private::Core> &', 'c': 'Rejection_ctor'},
